@@ -332,7 +332,7 @@ def exec_case(case):
         res = cut(lambda: torch.matmul(x, w.t()) + (b if b is not None else 0))
         judge(out, f"matmul/{tagbase}", case, res, ref, mag, x, w, want_shape, dtype)
     elif entry == "mm":
-        x2 = x.reshape(-1, case["inf"]) if not isinstance(x, QTensor) else x.reshape(-1, case["inf"])
+        x2 = x if x.ndim == 2 else x.reshape(-1, case["inf"])  # (reshaping a per-axis quantized batch dequantizes it: a 2D one is used as it is)
         if isinstance(x2, Raised):
             out.discard = True
             return out
@@ -340,7 +340,7 @@ def exec_case(case):
         judge(out, f"mm/{tagbase}", case, res, ref.reshape(-1, case["outf"]), mag.reshape(-1, case["outf"]), x, w, (case["rows"], case["outf"]), dtype)
     elif entry == "mm_other_axis0":
         # torch.mm(qx, other) where `other` (K, N) is quantized per-axis along its FIRST axis, i.e. the contraction axis
-        x2 = x.reshape(-1, case["inf"])
+        x2 = x if x.ndim == 2 else x.reshape(-1, case["inf"])
         wt = w.dequantize().t().contiguous()  # (K, N) float
         if wk == "lowbit" or wt.shape[0] == 1:
             out.discard = True
@@ -464,6 +464,14 @@ def run_grid(ctx):
                                 for lay in ("expanded", "transposed", "sliced"):
                                     cs.append({"dtype": dt, "act": act, "wq": wq, "rows": r, "brank": 1, "inf": k, "outf": n, "bias": False, "mode": "exact", "entry": entry,
                                                "layout": lay, "ascale": "absmax", "group": 0, "per_tensor_w": ptw, "seed": ctx.seed * 1000 + r + 7 * k + 13 * n + 6})
+                            if entry == "mm" and wq not in ("qint4", "qint2") and act != "float":
+                                # torch.mm with a first operand quantized PER-AXIS (one scale per row, or per column) against per-axis and
+                                # per-tensor second operands: every pairing of scale shapes (0-dim or with dimensions) on every route
+                                for ax in (0, -1):
+                                    for mode, sign in (("exact", "mixed"), ("real", "mixed"), ("real", "one-sided")):
+                                        # (one-sided: coherent sums -- the integer accumulators leave the range of float16, the result does not)
+                                        cs.append({"dtype": dt, "act": act, "wq": wq, "rows": r, "brank": 1, "inf": k, "outf": n, "bias": False, "mode": mode, "entry": "mm", "sign": sign,
+                                                   "layout": "contig", "ascale": "absmax", "group": 0, "per_tensor_w": ptw, "act_axis": ax, "seed": ctx.seed * 1000 + r + 7 * k + 13 * n + 7})
                             if entry == "linear" and act == "float" and (r + n) % 2 == 0:
                                 # float activations held in a Parameter
                                 cs.append({"dtype": dt, "act": act, "wq": wq, "rows": r, "brank": 1 + (r % 2), "inf": k, "outf": n, "bias": (r + k) % 2 == 1, "mode": "exact", "entry": "linear",
